@@ -55,14 +55,15 @@ Record st := {
   submitted : list (list nat);   (* ghost: batches handed to backend.submit by this call, in order *)
   delivered : list nat;          (* ghost: values handed to the consumer by this call, in order *)
   closed : list nat;             (* ghost: trackers of this call whose callback ran _dispatch_new *)
-  abandoned : bool               (* ghost: the consumer closed / dropped the generator of this call *)
+  abandoned : bool;              (* ghost: the consumer closed / dropped the generator of this call *)
+  noisy : bool                   (* ghost: a completion callback ran its dispatch section while the caller was still in _start *)
 }.
 
 Definition init : st := {|
   cid := 0; running := false; c := {| n_jobs := 2; pre := PreAll; mode := Ordered |}; N := 0; ifail := None;
   taken := 0; pre_left := None; ready := []; trk := []; jobs := []; jset := []; inflight := []; cbmid := [];
   n_disp := 0; n_comp := 0; iterating := false; aborting := false; exception := false; orig := false;
-  phase := Idle; pend_out := []; want := false; submitted := []; delivered := []; closed := []; abandoned := false |}.
+  phase := Idle; pend_out := []; want := false; submitted := []; delivered := []; closed := []; abandoned := false; noisy := false |}.
 
 (* ------------------------------------------------------------------ helpers *)
 Fixpoint set_nth {A} (n : nat) (x : A) (l : list A) : list A :=
@@ -100,7 +101,7 @@ Definition upd_dispatch (s : st) (taken' : nat) (pre_left' : option nat) (ready'
      taken := taken'; pre_left := pre_left'; ready := ready'; trk := trk s; jobs := jobs s; jset := jset s;
      inflight := inflight s; cbmid := cbmid s; n_disp := n_disp s; n_comp := n_comp s;
      iterating := iterating s; aborting := aborting s; exception := exception s; orig := orig s;
-     phase := phase s; pend_out := pend_out s; want := want s; submitted := submitted s; delivered := delivered s; closed := closed s; abandoned := abandoned s |}.
+     phase := phase s; pend_out := pend_out s; want := want s; submitted := submitted s; delivered := delivered s; closed := closed s; abandoned := abandoned s; noisy := noisy s |}.
 
 (* _dispatch: register a tracker and submit *)
 Definition do_submit (s : st) (tasks : list nat) : st :=
@@ -113,7 +114,7 @@ Definition do_submit (s : st) (tasks : list nat) : st :=
      inflight := inflight s ++ [id]; cbmid := cbmid s;
      n_disp := n_disp s + length tasks; n_comp := n_comp s;
      iterating := iterating s; aborting := aborting s; exception := exception s; orig := orig s;
-     phase := phase s; pend_out := pend_out s; want := want s; submitted := submitted s ++ [tasks]; delivered := delivered s; closed := closed s; abandoned := abandoned s |}.
+     phase := phase s; pend_out := pend_out s; want := want s; submitted := submitted s ++ [tasks]; delivered := delivered s; closed := closed s; abandoned := abandoned s; noisy := noisy s |}.
 
 (* the `except Exception` branch of dispatch_one_batch: a tracker that already failed *)
 Definition do_iter_error (s : st) (taken' : nat) (pre_left' : option nat) : st :=
@@ -126,7 +127,7 @@ Definition do_iter_error (s : st) (taken' : nat) (pre_left' : option nat) : st :
      inflight := inflight s; cbmid := cbmid s;
      n_disp := n_disp s; n_comp := n_comp s;
      iterating := iterating s; aborting := true; exception := true; orig := orig s;
-     phase := phase s; pend_out := pend_out s; want := want s; submitted := submitted s; delivered := delivered s; closed := closed s; abandoned := abandoned s |}.
+     phase := phase s; pend_out := pend_out s; want := want s; submitted := submitted s; delivered := delivered s; closed := closed s; abandoned := abandoned s; noisy := noisy s |}.
 
 Definition opt_min (a : nat) (b : option nat) : nat := match b with None => a | Some x => Nat.min a x end.
 Definition opt_sub (b : option nat) (k : nat) : option nat := match b with None => None | Some x => Some (x - k) end.
@@ -176,7 +177,7 @@ Definition set_flags (s : st) (iterating' orig' : bool) (phase' : phase_t) : st 
      taken := taken s; pre_left := pre_left s; ready := ready s; trk := trk s; jobs := jobs s; jset := jset s;
      inflight := inflight s; cbmid := cbmid s; n_disp := n_disp s; n_comp := n_comp s;
      iterating := iterating'; aborting := aborting s; exception := exception s; orig := orig';
-     phase := phase'; pend_out := pend_out s; want := want s; submitted := submitted s; delivered := delivered s; closed := closed s; abandoned := abandoned s |}.
+     phase := phase'; pend_out := pend_out s; want := want s; submitted := submitted s; delivered := delivered s; closed := closed s; abandoned := abandoned s; noisy := noisy s |}.
 
 (* --------------------------------------------------------------- ECall *)
 Definition pre_amount (p : pre_t) : option nat := match p with PreAll => None | PreN n => Some n end.
@@ -187,7 +188,7 @@ Definition do_call (s : st) (cf : cfg) (n : nat) (f : option nat) : st :=
      inflight := inflight s; cbmid := cbmid s; n_disp := 0; n_comp := 0;
      iterating := false; aborting := false; exception := false;
      orig := match pre cf with PreAll => false | PreN _ => true end;
-     phase := StartFirst; pend_out := []; want := false; submitted := []; delivered := []; closed := []; abandoned := false |}.
+     phase := StartFirst; pend_out := []; want := false; submitted := []; delivered := []; closed := []; abandoned := false; noisy := false |}.
 
 (* --------------------------------------------------------------- callbacks *)
 Definition set_status (s : st) (t : nat) (x : status) : list tracker :=
@@ -209,7 +210,7 @@ Definition cb_start (s : st) (t : nat) (o : option err) : st :=
          taken := taken s; pre_left := pre_left s; ready := ready s; trk := trk s; jobs := jobs s; jset := jset s;
          inflight := infl; cbmid := cbmid s; n_disp := n_disp s; n_comp := n_comp s;
          iterating := iterating s; aborting := aborting s; exception := exception s; orig := orig s;
-         phase := phase s; pend_out := pend_out s; want := want s; submitted := submitted s; delivered := delivered s; closed := closed s; abandoned := abandoned s |}
+         phase := phase s; pend_out := pend_out s; want := want s; submitted := submitted s; delivered := delivered s; closed := closed s; abandoned := abandoned s; noisy := noisy s |}
     else
       let already := match tk_status k with Pending => false | _ => true end in
       let newst := match o with None => Done | Some e => Failed e end in
@@ -225,7 +226,7 @@ Definition cb_start (s : st) (t : nat) (o : option err) : st :=
          aborting := if already then aborting s else (aborting s || failed);
          exception := if already then exception s else (exception s || failed);
          orig := orig s;
-         phase := phase s; pend_out := pend_out s; want := want s; submitted := submitted s; delivered := delivered s; closed := closed s; abandoned := abandoned s |}
+         phase := phase s; pend_out := pend_out s; want := want s; submitted := submitted s; delivered := delivered s; closed := closed s; abandoned := abandoned s; noisy := noisy s |}
   end.
 
 Definition add_comp (s : st) (k : nat) (cbmid' : list nat) : st :=
@@ -233,7 +234,7 @@ Definition add_comp (s : st) (k : nat) (cbmid' : list nat) : st :=
      taken := taken s; pre_left := pre_left s; ready := ready s; trk := trk s; jobs := jobs s; jset := jset s;
      inflight := inflight s; cbmid := cbmid'; n_disp := n_disp s; n_comp := n_comp s + k;
      iterating := iterating s; aborting := aborting s; exception := exception s; orig := orig s;
-     phase := phase s; pend_out := pend_out s; want := want s; submitted := submitted s; delivered := delivered s; closed := closed s; abandoned := abandoned s |}.
+     phase := phase s; pend_out := pend_out s; want := want s; submitted := submitted s; delivered := delivered s; closed := closed s; abandoned := abandoned s; noisy := noisy s |}.
 
 Definition mark_closed (s : st) (t : nat) : st :=
   {| cid := cid s; running := running s; c := c s; N := N s; ifail := ifail s;
@@ -241,7 +242,7 @@ Definition mark_closed (s : st) (t : nat) : st :=
      inflight := inflight s; cbmid := cbmid s; n_disp := n_disp s; n_comp := n_comp s;
      iterating := iterating s; aborting := aborting s; exception := exception s; orig := orig s;
      phase := phase s; pend_out := pend_out s; want := want s; submitted := submitted s;
-     delivered := delivered s; closed := closed s ++ [t]; abandoned := abandoned s |}.
+     delivered := delivered s; closed := closed s ++ [t]; abandoned := abandoned s; noisy := noisy s || match phase s with StartFirst | StartLoop => true | _ => false end |}.
 
 (* second locked section: _dispatch_new.  [guard_cid] = the call-id re-check of the callback
    (true on the current tree, see DESIGN.md F17) *)
@@ -269,14 +270,14 @@ Definition finalize (s : st) (phase' : phase_t) (exc : bool) (abort : bool) : st
      taken := taken s; pre_left := pre_left s; ready := ready s; trk := trk s; jobs := []; jset := [];
      inflight := inflight s; cbmid := cbmid s; n_disp := n_disp s; n_comp := n_comp s;
      iterating := iterating s; aborting := aborting s || abort; exception := exc; orig := orig s;
-     phase := phase'; pend_out := []; want := false; submitted := submitted s; delivered := delivered s; closed := closed s; abandoned := abandoned s |}.
+     phase := phase'; pend_out := []; want := false; submitted := submitted s; delivered := delivered s; closed := closed s; abandoned := abandoned s; noisy := noisy s |}.
 
 Definition set_out (s : st) (jobs' jset' : list nat) (pend' : list nat) (want' : bool) (phase' : phase_t) : st :=
   {| cid := cid s; running := running s; c := c s; N := N s; ifail := ifail s;
      taken := taken s; pre_left := pre_left s; ready := ready s; trk := trk s; jobs := jobs'; jset := jset';
      inflight := inflight s; cbmid := cbmid s; n_disp := n_disp s; n_comp := n_comp s;
      iterating := iterating s; aborting := aborting s; exception := exception s; orig := orig s;
-     phase := phase'; pend_out := pend'; want := want'; submitted := submitted s; delivered := delivered s; closed := closed s; abandoned := abandoned s |}.
+     phase := phase'; pend_out := pend'; want := want'; submitted := submitted s; delivered := delivered s; closed := closed s; abandoned := abandoned s; noisy := noisy s |}.
 
 Definition deliver (s : st) (v : nat) : st :=
   {| cid := cid s; running := running s; c := c s; N := N s; ifail := ifail s;
@@ -284,7 +285,7 @@ Definition deliver (s : st) (v : nat) : st :=
      inflight := inflight s; cbmid := cbmid s; n_disp := n_disp s; n_comp := n_comp s;
      iterating := iterating s; aborting := aborting s; exception := exception s; orig := orig s;
      phase := phase s; pend_out := pend_out s; want := want s; submitted := submitted s;
-     delivered := delivered s ++ [v]; closed := closed s; abandoned := abandoned s |}.
+     delivered := delivered s ++ [v]; closed := closed s; abandoned := abandoned s; noisy := noisy s |}.
 
 (* One attempt of the consumer to obtain the next value (it has called next()).
    None = still waiting (the retrieval loop keeps polling). *)
@@ -360,7 +361,7 @@ Definition do_timeout (s : st) (j : nat) : st :=
      inflight := inflight s; cbmid := cbmid s; n_disp := n_disp s; n_comp := n_comp s;
      iterating := iterating s; aborting := true; exception := true; orig := orig s;
      phase := phase s; pend_out := pend_out s; want := want s; submitted := submitted s;
-     delivered := delivered s; closed := closed s; abandoned := abandoned s |}.
+     delivered := delivered s; closed := closed s; abandoned := abandoned s; noisy := noisy s |}.
 
 Definition abandon (s : st) : st :=
   {| cid := cid s; running := running s; c := c s; N := N s; ifail := ifail s;
@@ -368,7 +369,7 @@ Definition abandon (s : st) : st :=
      inflight := inflight s; cbmid := cbmid s; n_disp := n_disp s; n_comp := n_comp s;
      iterating := iterating s; aborting := aborting s; exception := exception s; orig := orig s;
      phase := phase s; pend_out := pend_out s; want := want s; submitted := submitted s;
-     delivered := delivered s; closed := closed s; abandoned := true |}.
+     delivered := delivered s; closed := closed s; abandoned := true; noisy := noisy s |}.
 
 (* head job used for the timeout control *)
 Definition timeout_target (s : st) : option nat :=
